@@ -67,12 +67,52 @@ class PathResult:
         self.trivial = 0
         self.by_simplify = 0
         self.by_solver = 0
+        self.by_som = 0
         self.nl = 0
         self.queries = 0
         self.t_solver = 0.0
         self.failed = []  # (ob key, info, inputs)
         self.unknown = []  # ob keys
         self.sample = None
+
+
+def _uf_apps(exprs):
+    """all applications of uninterpreted functions (arity > 0) in the expressions, outermost first"""
+    seen = {}
+    order = []
+
+    def visit(e, depth):
+        h = e.get_id()
+        if h in seen:
+            return
+        seen[h] = True
+        if z3.is_app(e):
+            if e.num_args() > 0 and e.decl().kind() == z3.Z3_OP_UNINTERPRETED:
+                order.append((depth, e))
+            for ch in e.children():
+                visit(ch, depth + 1)
+
+    for e in exprs:
+        visit(e, 0)
+    order.sort(key=lambda x: x[0])
+    return [e for _d, e in order]
+
+
+def abstract_ufs(exprs):
+    """replace every UF application by a fresh real constant (drops congruence: unsat stays sound)"""
+    if not _uf_apps(exprs):
+        return None
+    # normalise first: syntactically different but simplifier-equal argument terms must map to the
+    # same fresh constant
+    exprs = [z3.simplify(e, som=True) for e in exprs]
+    apps = _uf_apps(exprs)
+    out = list(exprs)
+    for i, a in enumerate(apps):
+        if a.sort() != z3.RealSort():
+            return None
+        fresh = z3.Real(f"ufabs!{i}")
+        out = [z3.substitute(e, (a, fresh)) for e in out]
+    return out
 
 
 def _fresh_solver(c, timeout_ms, lemmas=()):
@@ -101,6 +141,28 @@ def _robust_model(c, w, ob, t, timeout_ms=3000):
     if s.check() == z3.sat:
         return s.model()
     return None
+
+
+def prove_now(c, w, cond, timeout_ms=20000):
+    """decide one obligation immediately under the current path (fresh solver)."""
+    t = z3.simplify(cond.t)
+    if z3.is_true(t):
+        return True, None
+    if isinstance(cond, EqBool):
+        d = z3.simplify(cond.lhs - cond.rhs, som=True)
+        if z3.is_rational_value(d) and d.numerator_as_long() == 0:
+            return True, None
+    s = _fresh_solver(c, timeout_ms)
+    s.add(z3.Not(t))
+    t0 = time.time()
+    r = s.check()
+    c.t_solver += time.time() - t0
+    c.nq += 1
+    if r == z3.unsat:
+        return True, None
+    if r == z3.sat:
+        return False, None
+    return None, None
 
 
 def discharge(c, w, timeout_ms, collect_smt=None):
@@ -167,12 +229,33 @@ def discharge(c, w, timeout_ms, collect_smt=None):
     lemmas = []
     for ob, t in nl:
         pr.nl += 1
-        s = _fresh_solver(c, timeout_ms, lemmas if ob.chain else ())
-        s.add(z3.Not(t))
+        if isinstance(ob.cond, EqBool) and not os.environ.get("SVX_NO_SOM"):
+            # polynomial identities: z3's sum-of-monomials normal form decides them outright
+            d = z3.simplify(ob.cond.lhs - ob.cond.rhs, som=True)
+            if z3.is_rational_value(d) and d.numerator_as_long() == 0:
+                pr.by_som += 1
+                if ob.chain:
+                    lemmas.append(t)
+                continue
         t0 = time.time()
-        r = s.check()
+        r = z3.unknown
+        base = list(c.assumptions) + c.path_condition() + (list(lemmas) if ob.chain else []) + [z3.Not(t)]
+        ab = abstract_ufs(base)
+        if ab is not None:
+            # UF applications as free reals first (nlsat has no UF support); only unsat is kept
+            s = z3.Solver()
+            s.set("timeout", timeout_ms)
+            s.add(*ab)
+            r = s.check()
+            pr.queries += 1
+            if r != z3.unsat:
+                r = z3.unknown
+        if r == z3.unknown:
+            s = _fresh_solver(c, timeout_ms, lemmas if ob.chain else ())
+            s.add(z3.Not(t))
+            r = s.check()
+            pr.queries += 1
         pr.t_solver += time.time() - t0
-        pr.queries += 1
         if r == z3.unsat:
             pr.by_solver += 1
             if ob.chain:
@@ -220,7 +303,7 @@ def process_config(args):
     mod = importlib.import_module(modname)
     res = dict(
         key=cfg["key"], h=cfg["h"], paths=0, infeasible=0, forks=0, max_depth=0, obligations=0, trivial=0,
-        by_simplify=0, by_solver=0, nl=0, queries=0, t_solver=0.0, nontrivial_paths=0, solver_paths=0, structural=0, violations=[],
+        by_simplify=0, by_solver=0, nl=0, queries=0, t_solver=0.0, nontrivial_paths=0, solver_paths=0, structural=0, by_som=0, violations=[],
         unknown=[], error=None, inconclusive=None, sample=None, funcs=[], stubs=[], shadow=None,
     )
     timeout_ms = opts.get("timeout_ms", 10000)
@@ -271,7 +354,9 @@ def process_config(args):
                     res["forks"] += c.forks
                     res["max_depth"] = max(res["max_depth"], len(c.trace))
                     # reachability twin: assumptions + path must be satisfiable
-                    r = c.solver.check()
+                    r = c._fresh_check(z3.BoolVal(True)) if c.nl_mode else c.solver.check()
+                    if r == z3.unknown:
+                        r = c._fresh_check(z3.BoolVal(True))
                     if r == z3.unsat:
                         res["infeasible"] += 1
                         continue
@@ -281,15 +366,18 @@ def process_config(args):
                     pr = discharge(c, w, timeout_ms)
                     res["obligations"] += pr.n_obs
                     res["trivial"] += pr.trivial
-                    res["by_simplify"] += pr.by_simplify
+                    res["by_simplify"] += pr.by_simplify + pr.by_som
+                    res["by_som"] += pr.by_som
                     res["by_solver"] += pr.by_solver
                     res["nl"] += pr.nl
                     res["queries"] += pr.queries + c.nq
                     res["t_solver"] += pr.t_solver + c.t_solver
                     res["structural"] += w.n_struct
+                    res["by_solver"] += w.n_lemmas
+                    res["trivial"] -= w.n_lemmas
                     if pr.by_solver or pr.failed:
                         res["solver_paths"] += 1
-                    if pr.by_solver or pr.failed or pr.by_simplify or w.n_struct:
+                    if pr.by_solver or pr.failed or pr.by_simplify or pr.by_som or w.n_struct:
                         res["nontrivial_paths"] += 1
                     if pr.sample and res["sample"] is None:
                         res["sample"] = dict(config=cfg["key"], obligation=pr.sample[0], negated_goal_unsat=pr.sample[1],
@@ -406,6 +494,9 @@ def main(argv=None):
     if replay:
         return do_replay(mod, prop, replay)
 
+    import logging
+
+    logging.getLogger().setLevel(logging.ERROR)  # flodym's warnings are harness-captured where they matter (C02)
     t0 = time.time()
     cfgs = mod.configs(tier, seed)
     if only:
@@ -440,7 +531,7 @@ def main(argv=None):
 def report(mod, prop, tier, seed, results, wall, verbose=False):
     known = load_known()
     agg = dict(configs=len(results), paths=0, infeasible=0, forks=0, max_depth=0, obligations=0, trivial=0, by_simplify=0,
-               by_solver=0, nl=0, queries=0, t_solver=0.0, nontrivial=0, structural=0, solver_paths=0)
+               by_solver=0, nl=0, queries=0, t_solver=0.0, nontrivial=0, structural=0, solver_paths=0, by_som=0)
     funcs, stubs = set(), set()
     samples = []
     inconclusive, errors, unknowns = [], [], []
@@ -448,7 +539,7 @@ def report(mod, prop, tier, seed, results, wall, verbose=False):
     shadow_runs = shadow_bad = 0
     per_h = {}
     for r in results:
-        for k in ("paths", "infeasible", "forks", "obligations", "trivial", "by_simplify", "by_solver", "nl", "queries", "t_solver", "structural", "solver_paths"):
+        for k in ("paths", "infeasible", "forks", "obligations", "trivial", "by_simplify", "by_solver", "nl", "queries", "t_solver", "structural", "solver_paths", "by_som"):
             agg[k] += r[k]
         agg["max_depth"] = max(agg["max_depth"], r["max_depth"])
         agg["nontrivial"] += r["nontrivial_paths"]
@@ -552,7 +643,7 @@ def report(mod, prop, tier, seed, results, wall, verbose=False):
             obligations=agg["obligations"],
             discharged=agg["trivial"] + agg["by_simplify"] + agg["by_solver"],
             discharged_by=dict(python_level_check=agg["trivial"] - agg["structural"], identical_z3_term=agg["structural"],
-                               z3_simplifier=agg["by_simplify"], z3_solver_unsat=agg["by_solver"]),
+                               z3_simplifier=agg["by_simplify"] - agg["by_som"], z3_sum_of_monomials_normal_form=agg["by_som"], z3_solver_unsat=agg["by_solver"]),
             nonlinear_queries=agg["nl"],
             sat_replayed=sum(len(v) for v in known_hits.values()) + len(new_violations),
             non_reproducing=len(nonrepro),
@@ -577,6 +668,9 @@ def report(mod, prop, tier, seed, results, wall, verbose=False):
     os.makedirs(os.path.join(VERIF, "evidence"), exist_ok=True)
     with open(os.path.join(VERIF, "evidence", f"{prop}.json"), "w") as f:
         json.dump(ev, f, indent=1, default=str)
+    if os.environ.get("SVX_SLOW"):
+        for r in sorted(results, key=lambda r: -r["wall"])[:8]:
+            print(f"  slow: {r['wall']:.1f}s {r['key']} paths={r['paths']} obligations={r['obligations']}")
     print(f"{prop} {tier}: configs={agg['configs']} paths={agg['paths']} obligations={agg['obligations']} "
           f"solver-discharged={agg['by_solver']} simplifier={agg['by_simplify']} trivial={agg['trivial']} nl={agg['nl']} "
           f"violations={len(new_violations)} known={sum(len(v) for v in known_hits.values())} wall={wall:.1f}s solver={agg['t_solver']:.1f}s exit={code}")
